@@ -5,13 +5,19 @@
 // E-enum against the real Go compiler. gen.go enumerates every single-form
 // program over every scalar type / operator / boundary value (thorough: also
 // every ordered pair of statement forms on a shared variable and one level of
-// nesting). The same source text is compiled by Go (batched, one process per
-// program) and run by the plain `ego run --types <mode>` binary. For speed the
-// programs Go completes normally are packed (600 functions per file, each in its
-// own try{} with delimiters); a program that Go aborts is never packed, one
-// representative of every (form,type) is always run alone, and every packed
-// disagreement is re-run alone in a fresh ego process: only a disagreement seen
-// there is reported.
+// nesting). The same source text is compiled by Go (batched; every program
+// that panics is run again alone, in its own process) and run by the plain
+// `ego run --types <mode>` binary. For speed the programs Go completes
+// normally are packed (600 functions per file, each in its own try{} with
+// delimiters); a program that Go aborts is never packed, one representative of
+// every form (thorough: of every form and type class) is always run alone, and
+// every packed disagreement is re-run alone in a fresh ego process: only a
+// disagreement seen there is reported.
+//
+// A violation is filed per program, not per (program, mode): its cell is
+// form group : type class : the modes that disagree and how, e.g.
+// "incdec:sized-int:dynamic=out,strict=err", always computed from three
+// stand-alone runs.
 package main
 
 import (
